@@ -356,6 +356,11 @@ func genGoCase(t *rapid.T) goCase {
 		if rapid.IntRange(0, 5).Draw(t, "ownbook") == 0 {
 			r.Options = append(r.Options, "setoption name OwnBook value "+rapid.SampledFrom([]string{"true", "false"}).Draw(t, "book"))
 		}
+		// options changed in the middle of a game (the next go may come without a new position)
+		if rapid.IntRange(0, 4).Draw(t, "midgameoption") == 0 {
+			r.Options = append(r.Options, rapid.SampledFrom([]string{"setoption name Hash value 0", "setoption name Hash value 1", "setoption name Hash value 2", "setoption name Hash value 16",
+				"setoption name Noise value 0", "setoption name Noise value 25"}).Draw(t, "option"))
+		}
 		line, self := genGoLine(t, c.Engine)
 		r.Go = line
 		if self && rapid.IntRange(0, 3).Draw(t, "stopanyway") > 0 {
